@@ -110,7 +110,7 @@ func c07Value(c C07Case) interface{} {
 }
 
 // positions: template set + name of the filter used is a parameter
-const c07NPos = 18
+const c07NPos = 20
 
 func c07Templates(pos int, f string) map[string]string {
 	switch pos {
@@ -153,6 +153,11 @@ func c07Templates(pos int, f string) map[string]string {
 		return map[string]string{"main": "{% apply " + f + " %}{{ v|" + f + " }}{% endapply %}"}
 	case 17:
 		return map[string]string{"main": "{% set a = v|" + f + " %}{{ a|" + f + " }}"}
+	// 18, 19: inside a sandboxed include under the library's default policy (which lists both names)
+	case 18:
+		return map[string]string{"main": "{% include 'inc' sandboxed %}", "inc": "{{ v|" + f + " }}"}
+	case 19:
+		return map[string]string{"main": "{% include 'inc' sandboxed %}", "inc": "{% apply " + f + " %}{{ v }}{% endapply %}"}
 	}
 	panic("pos")
 }
@@ -200,7 +205,7 @@ func checkC07(c C07Case) error {
 		}
 		pre = r.Out
 	}
-	if c.Pos >= 14 {
+	if c.Pos >= 14 && c.Pos <= 17 {
 		// escaped twice: the input of the second application is the engine's single escape
 		r := render1("{{ v|e }}", ctx)
 		if r.Failed() {
@@ -214,7 +219,11 @@ func checkC07(c C07Case) error {
 	var outs [2]string
 	for i, f := range []string{"e", "escape"} {
 		t := c07Templates(c.Pos, f)
-		r := render(newEngine(t), "main", ctx)
+		eng := newEngine(t)
+		if c.Pos >= 18 {
+			eng.EnableSandbox(twig.NewDefaultSecurityPolicy())
+		}
+		r := render(eng, "main", ctx)
 		if r.Failed() {
 			return fmt.Errorf("pos %d filter %s: render failed: %v (templates %v)", c.Pos, f, r, t)
 		}
@@ -348,7 +357,7 @@ func isASCII(s string) bool {
 	return true
 }
 
-const c07Rule = "random strings (all of Unicode, raw bytes incl. invalid UTF-8, pieces of HTML and of already-escaped text) as 14 Go value shapes (string, []byte, Stringer struct, named int / float / bool types with a String method, error, pointer to string, slices, maps, structs) in 18 filter positions (4 of them apply the filter to its own output); non-trivial = the text contains one of < > & \" ' or a byte >= 0x80; distinct by (value, shape, position)"
+const c07Rule = "random strings (all of Unicode, raw bytes incl. invalid UTF-8, pieces of HTML and of already-escaped text) as 14 Go value shapes (string, []byte, Stringer struct, named int / float / bool types with a String method, error, pointer to string, slices, maps, structs) in 20 filter positions (4 of them apply the filter to its own output, 2 lie in a sandboxed include under NewDefaultSecurityPolicy); non-trivial = the text contains one of < > & \" ' or a byte >= 0x80; distinct by (value, shape, position)"
 
 func TestC07Escape(t *testing.T) {
 	r := NewRec(t, "C07", c07Rule)
